@@ -337,10 +337,75 @@ def run_clients_plan(plan, out):
     return None
 
 
+async def parent_listing(net, hyg, plan):
+    """one session lists the directory both sessions live in, entry by entry with a storage that takes its time; the other session
+    removes / creates / renames top-level entries OF ITS OWN meanwhile: whatever the listing says about those, every entry that was
+    there all the time (the lister's own) is listed exactly once"""
+    from ..rawpeer import RawPeer
+    n = plan["n"]
+    tree = {"/0b_first": "<DIR>", "/0b_gone.txt": b"x"}
+    tree.update({f"/a_{i:04d}": (b"a" if i % 2 else "<DIR>") for i in range(n)})
+    tree["/b_last"] = "<DIR>"
+    w = W.World(net, tree=tree, users=[aioftp.User(base_path="/")], backend=plan.get("backend", "memory"))
+    await w.start()
+    viol = []
+    try:
+        w.ctl.delay = lambda op, path, nn: plan["step_delay"] if op == "list" else 0
+        a, b = RawPeer(net, 2121, name="lister"), RawPeer(net, 2121, name="other")
+        for p_ in (a, b):
+            await p_.connect()
+            await p_.cmd("USER anonymous")
+        port = a.parse_epsv(await a.cmd("EPSV"))
+        dr, dw = await a.open_data(port)
+        a.send(plan["verb"] + " /")
+
+        async def other():
+            await asyncio.sleep(plan["step_delay"] * n * plan["at"])
+            for ln in plan["other"]:
+                await b.cmd(ln)
+        ot = asyncio.ensure_future(other())
+        r1 = await a.read_reply(wait=60)
+        data, st = await a.read_data(dr, wait=120)
+        dw.close()
+        r2 = await a.read_reply(wait=60)
+        await ot
+        lines = [x for x in data.decode("utf-8", "replace").split("\r\n") if x]
+        names = [(ln.partition("; ")[2] if plan["verb"] == "MLSD" else ln.rsplit(" ", 1)[-1]) for ln in lines]
+        own = [f"a_{i:04d}" for i in range(n)]
+        missing = [x for x in own if names.count(x) == 0]
+        twice = [x for x in own if names.count(x) > 1]
+        codes = [r.code if r not in (None, "EOF") else str(r) for r in (r1, r2)]
+        where = f"{plan['verb']} / of {n + 3} entries ({plan.get('backend', 'memory')}), the other session meanwhile: {plan['other']}"
+        if codes[0] != "150" or codes[1] not in ("226", "200"):
+            viol.append({"key": "parent-listing-failed", "msg": f"{where}: replies {codes}"})
+        elif missing or twice:
+            viol.append({"key": "entry-of-the-lister-missing-from-parent-listing" if missing else "entry-listed-twice-in-parent-listing",
+                         "msg": f"{where}: of the lister's own {n} entries, which nobody touched, {missing[:3]} are missing and {twice[:3]} "
+                                f"are listed twice ({len(names)} lines)"})
+        for p_ in (a, b):
+            p_.cut("fin")
+        await w.stop()
+        return {"violations": viol, "listed": len(names)}
+    finally:
+        w.cleanup()
+
+
 def run_case(case):
     pin_clocks()
     out = {"violations": [], "monitors": {"transcript_vs_solo": 0, "tree_vs_solo": 0, "backend_prefix": 0}, "sigs": []}
     for plan in case["plans"]:
+        if plan.get("parent_listing"):
+            async def main_pl(net, hyg, plan=plan):
+                return await parent_listing(net, hyg, plan)
+            res, info = W.run(main_pl, seed=plan["seed"], net_kwargs=dict(latency=0.001))
+            if res is None:
+                return W.failed(info, "parent listing")
+            out["monitors"]["parent_listing"] = out["monitors"].get("parent_listing", 0) + 1
+            for v in res["violations"]:
+                v["replay_case"] = {"plans": [plan]}
+                out["violations"].append(v)
+            out["sigs"].append(sig_of(["parent_listing", plan]))
+            continue
         if plan.get("clients"):
             bad = run_clients_plan(plan, out)
             if bad is not None:
@@ -527,6 +592,14 @@ def gen_cases(tier, seed):
                               "backend_delay": [0, 0.0006] if gap else None})
     for ops in (["upload"], ["download", "upload"], ["list", "download"], ["cd", "list", "upload"]):
         plans.append({"clients": True, "two_lives": True, "seed": seed, "ops": ops, "prefixes": ["/s0"], "scripts": ["client"]})
+    # the directory both sessions live in, listed slowly by one of them while the other works on top-level entries of its own
+    for verb in ("MLSD", "LIST"):
+        for other in (["RMD /0b_first"], ["DELE /0b_gone.txt", "MKD /0b_new"], ["RNFR /0b_first", "RNTO /zz_moved"], ["RMD /b_last"],
+                      ["RMD /0b_first", "MKD /0b_first"]):
+            for at in (0.3, 0.7):
+                for backend in (("memory",) if tier == "quick" else ("memory", "pathio")):
+                    plans.append({"parent_listing": True, "seed": seed, "verb": verb, "other": other, "at": at, "n": 40, "step_delay": 0.002,
+                                  "backend": backend, "scripts": ["parent_listing"], "prefixes": ["/"], "users": ["anon"]})
     # refusals for different reasons in two sessions, each compared with its solo run in a fresh process
     for order in (["refused_nologin", "refused_loggedin"], ["refused_loggedin", "refused_nologin"]):
         plans.append({"seed": seed, "scripts": order, "prefixes": ["/s0", "/s1"], "users": ["anon", "anon"], "offsets": [0, 0.05],
